@@ -7,7 +7,7 @@ import itertools
 
 from .. import AnalysisError
 from ..astutil import calls_in, norm_stmt, path_of, unparse, walk_scope, walk_stmts
-from ..facts import Fact, atoms
+from ..facts import Fact, atoms, enumerate_paths
 from ..report import Ctx
 from .c17 import _dominance_summary
 from .common import NotTabulable, OrderEval, always_before, need, node_of, stmts_matching
@@ -370,7 +370,33 @@ def rule_store(ctx: Ctx) -> None:
         ctx.ob("C18-5", "G8", td, "type tag", tags == [repr(cname)], f"{cname}.to_dict tags its state with its own class name")
 
 
+def rule_gossip_always_merges(ctx: Ctx) -> None:
+    """C18-5: replicas converge because every received state is joined into the local one.  (a) Both gossip handlers reach
+    `_merge_remote_state(remote_state)` on every path — no shortcut on "the hashes are equal"; (b) the hash that *is* compared (to decide
+    whether there is anything new to push) is computed from the full serialised state (`to_dict()`), not from the resolved values: two
+    replicas with equal values can hold different per-replica state (a: +5−2, b: +3 both read 3) and still have to merge."""
+    prog = ctx.prog
+    for q in ("CRDTStore._handle_gossip_push", "CRDTStore._handle_gossip_response"):
+        fn = prog.func(STORE, q)
+        ff = ctx.flow(fn)
+        ms = [c for c in calls_in(fn.node) if path_of(c.func) == "self._merge_remote_state"]
+        ok = len(ms) == 1 and [path_of(a_) for a_ in ms[0].args] == ["remote_state"]
+        if ok:
+            mn = node_of(ff.cfg, ms[0])
+            for p_ in enumerate_paths(ff, ff.cfg.entry):
+                if p_.end != "raise" and not any(nd is mn for nd in p_.nodes):
+                    ok = False
+        ctx.ob("C18-5", "G2", fn, ms[0] if ms else None, ok, f"{q}: the received state is merged on every path through the handler (no early exit before the join)")
+    sh = prog.func(STORE, "CRDTStore._state_hash")
+    txt = unparse(sh.node)
+    per_key = [x for x in ast.walk(sh.node) if isinstance(x, (ast.ListComp, ast.GeneratorExp)) and "self._crdts" in unparse(x)]
+    ok = len(per_key) == 1 and ".to_dict()" in unparse(per_key[0].elt) and "sorted(" in unparse(per_key[0])
+    ctx.ob("C18-5", "G7", sh, per_key[0] if per_key else None, ok, "CRDTStore._state_hash digests every key's full serialised state (`to_dict()`), in sorted key order — not the resolved value, which "
+           "different internal states can share")
+
+
 def run(ctx: Ctx) -> None:
+    ctx.guarded(rule_gossip_always_merges)
     ctx.guarded(rule_clocks)
     ctx.guarded(rule_crdts)
     ctx.guarded(rule_serialisation)
@@ -380,6 +406,8 @@ def run(ctx: Ctx) -> None:
 
 
 MUTANTS = [
+    ("gossip-push-skips-merge-on-equal-hash", STORE, "        # Merge remote state into local\n        self._merge_remote_state(remote_state)\n", "        if remote_hash and remote_hash == self._state_hash():\n            return None\n        self._merge_remote_state(remote_state)\n", "C18-5"),
+    ("state-hash-over-values", STORE, "{self._crdts[key].to_dict()}", "{self._crdts[key].value!r}", "C18-5"),
     ("lamport-receive-no-increment", LC, "        self._time = max(self._time, remote_ts) + 1", "        self._time = max(self._time, remote_ts)", "C18-1"),
     ("lamport-receive-ignores-local", LC, "        self._time = max(self._time, remote_ts) + 1", "        self._time = remote_ts + 1", "C18-1"),
     ("hlc-now-equal-physical-resets-logical", LC, "        if pt > self._last.physical_ns:\n            self._last = HLCTimestamp(physical_ns=pt, logical=0, node_id=self._node_id)", "        if pt >= self._last.physical_ns:\n            self._last = HLCTimestamp(physical_ns=pt, logical=0, node_id=self._node_id)", "C18-1"),
